@@ -212,6 +212,64 @@ static void check_c04(const Spec& sp, int L, Violations& V, Stats& st, bool verb
     }
 }
 
+// ---- deep sessions (C04): every depth M of a session of a few hundred steps, and from each M the whole descent rewind by rewind:
+// after R rewinds the state is the one a fresh session has after M-R steps (a history mechanism that forgets or recycles old entries shows
+// only beyond its capacity); from the bottom the session is then run to the end again
+static void check_c04_deep(const Spec& sp, Violations& V, Stats& st) {
+    std::vector<std::string> fwd;   // flat dump after d steps of a fresh session
+    std::vector<Dump> fwdd;
+    {
+        Sess S; if (!S.open(sp)) { st.skipped++; return; }
+        fwdd.push_back(dump(S)); fwd.push_back(flat(fwdd.back()));
+        while (!S.s.inst.at_end() && fwd.size() < 2000) { if (!S.s.inst.step()) break; fwdd.push_back(dump(S)); fwd.push_back(flat(fwdd.back())); }
+    }
+    int N = int(fwd.size()) - 1;
+    st.sessions++;
+    for (int M = 1; M <= N; M++) {
+        J rj = JObj().put("engine", "mc_hist").put("mode", "c04-deep").put("spec", spec_json(sp)).put("M", M).j();
+        note(rj.s);
+        Sess S; if (!S.open(sp)) return;
+        for (int i = 0; i < M; i++) S.s.inst.step();
+        st.states++;
+        bool bad = false;
+        for (int R = 1; R <= M && !bad; R++) {
+            bool ok = S.s.inst.rewind();
+            st.transitions++;
+            if (!ok) {
+                // a rewind may be refused (the tool does not go back across a script hand-over): it must change nothing, and the descent ends here
+                st.rewinds_refused++;
+                if (flat(dump(S)) != fwd[M - R + 1]) { V.add("deep-refused-rewind-changes-state", "after " + std::to_string(M) + " steps and " + std::to_string(R - 1) + " rewinds a refused rewind changed the state; " + spec_str(sp), rj); bad = true; }
+                break;
+            }
+            st.rewinds_ok++;
+            Dump d = dump(S);
+            if (flat(d) != fwd[M - R]) { V.add("deep-rewind-state:" + first_diff(d, fwdd[M - R]), "after " + std::to_string(M) + " steps and " + std::to_string(R) + " rewinds the state differs from a fresh session after " + std::to_string(M - R) + " steps in " + first_diff(d, fwdd[M - R]) + "; " + spec_str(sp), rj); bad = true; }
+        }
+        if (bad) continue;
+        // from the bottom, forward again to the end
+        int k = 0; while (!S.s.inst.at_end() && k < N + 5) { if (!S.s.inst.step()) break; k++; }
+        if (flat(dump(S)) != fwd[N]) V.add("deep-rewind-then-continue:" + first_diff(dump(S), fwdd[N]), "after " + std::to_string(M) + " steps, " + std::to_string(M) + " rewinds and running to the end, the final state differs from a fresh run in " + first_diff(dump(S), fwdd[N]) + "; " + spec_str(sp), rj);
+        st.tree_histories++;
+    }
+}
+static std::vector<Spec> c04_deep_specs(const std::string& tier) {
+    std::vector<Spec> out;
+    int reps = tier == "quick" ? 45 : 120;
+    for (auto sv : {ref::SigVer::BASE, ref::SigVer::WITNESS_V0, ref::SigVer::TAPSCRIPT}) {
+        if (tier == "quick" && sv == ref::SigVer::WITNESS_V0) continue;
+        // <n> IF 2 TOALTSTACK FROMALTSTACK DROP ELSE 3 ENDIF  (7 or 6 steps per round, alternating branches), then 1
+        Spec sp; sp.sv = sv; sp.flags = 0;
+        for (int i = 0; i < reps; i++) { for (uint8_t c : {uint8_t(i % 2 ? 0x51 : 0x00), uint8_t(0x63), uint8_t(0x52), uint8_t(0x6b), uint8_t(0x6c), uint8_t(0x75), uint8_t(0x67), uint8_t(0x53), uint8_t(0x68)}) sp.script.push_back(c); if (sv == ref::SigVer::TAPSCRIPT && i % 2) sp.script.push_back(0x75); else if (i % 2 == 0) sp.script.push_back(0x75); }
+        sp.script.push_back(0x51);
+        out.push_back(sp);
+    }
+    // a growing stack: 140 one-byte pushes (each snapshot larger than the one before)
+    { Spec sp; sp.sv = ref::SigVer::BASE; sp.flags = 0; for (int i = 0; i < (tier == "quick" ? 140 : 400); i++) { sp.script.push_back(0x01); sp.script.push_back(uint8_t(i)); } out.push_back(sp); }
+    // a two-script session (scriptSig then scriptPubKey), both long
+    { Spec sp; sp.sv = ref::SigVer::BASE; sp.flags = 0; for (int i = 0; i < 150; i++) sp.script.push_back(0x51); for (int i = 0; i < 149; i++) sp.successor.push_back(0x75); out.push_back(sp); }
+    return out;
+}
+
 // ------------------------------------------------------------------------------------------ C16
 struct Tok { std::string text; bytes enc; bool codesep; bool extra = false; };
 static std::vector<Tok> exec_tokens(bool thorough) {
@@ -226,6 +284,8 @@ static std::vector<Tok> exec_tokens(bool thorough) {
     if (thorough) { op("OP_2DROP", 0x6d); op("OP_OVER", 0x78); op("OP_NIP", 0x77); op("OP_TUCK", 0x7d); op("OP_IFDUP", 0x73); op("OP_ABS", 0x90); op("OP_NEGATE", 0x8f); op("OP_BOOLAND", 0x9a); op("OP_NUMEQUAL", 0x9c); op("OP_RIPEMD160", 0xa6); }
     for (int n : {-1, 1, 2, 5, 16, 17}) t.push_back({std::to_string(n), ref::push_num(n), false});
     for (const char* h : {"0100", "ff7f", "ffffff7f", "0080", "aabbcc"}) { bytes d = ref::unhex(h); t.push_back({h, ref::push_raw(d), false}); }
+    // hex with the 0x prefix (the spelling the script parser understands and exec's own ambiguity warning recommends)
+    for (const char* h : {"0100", "aabbcc"}) { bytes d = ref::unhex(h); t.push_back({std::string("0x") + h, ref::push_raw(d), false}); }
     // without the OP_ prefix
     t.push_back({"DUP", bytes{0x76}, false}); t.push_back({"ADD", bytes{0x93}, false});
     // operands whose numeric decoding throws (too long / non-minimal): used only as first element of the triples <operand> <numeric op> <any token>
@@ -445,6 +505,7 @@ int main(int argc, char** argv) {
         Spec sp = spec_from(r["spec"]);
         Violations V1, V2; Stats s;
         if (r["mode"].s == "c04") { check_c04(sp, 6, V1, s); check_c04(sp, 6, V2, s); }
+        else if (r["mode"].s == "c04-deep") { check_c04_deep(sp, V1, s); check_c04_deep(sp, V2, s); }
         else { auto toks = exec_tokens(true); check_c16(sp, toks, 2, V1, s); check_c16(sp, toks, 2, V2, s); }
         if (V1.j().s != V2.j().s) { fprintf(stderr, "NONDETERMINISTIC replay\n"); return 2; }
         for (auto& kv : V1.by_key) printf("DIVERGENCE %s: %s\n", kv.first.c_str(), kv.second.first.what.c_str());
@@ -477,6 +538,15 @@ int main(int argc, char** argv) {
         [&](const std::string& l) { if (l.empty()) return; if (l[0] == 'V') V.merge_line(l); else if (l[0] == 'M') { if (samples.size() < 10) samples.push_back(l.substr(2)); } else if (l[0] == 'T') S.merge_line(l); });
     if (mode == "c16") check_c16_messages(tmp, V, S);
     rm_rf(tmp);
+    if (mode == "c04") {
+        std::vector<Spec> deep = c04_deep_specs(tier);
+        std::string tmp2 = make_tmpdir();
+        parallel_for(deep.size(), default_workers(), tmp2, "c04-deep",
+            [&](size_t i, FILE* o) { Violations v; Stats s; check_c04_deep(deep[i], v, s); s.dump(o); v.dump(o); },
+            [&](size_t i, int stt, const std::string& nt) { V.add("crash:" + crash_desc(stt), "worker died (" + crash_desc(stt) + ") in deep session " + spec_str(deep[i]), J::raw(nt.empty() ? "{}" : nt)); },
+            [&](const std::string& l) { if (l.empty()) return; if (l[0] == 'V') V.merge_line(l); else if (l[0] == 'T') S.merge_line(l); });
+        rm_rf(tmp2);
+    }
     JObj res;
     res.put("engine", "mc_hist").put("mode", mode).put("tier", tier).put("specs", specs.size()).put("L", L).put("exec_tokens", toks.size()).put("exec_maxlen", maxlen);
     res.put("sessions", S.sessions).put("skipped_sessions_with_failing_step", S.skipped).put("states", S.states).put("transitions", S.transitions);
